@@ -155,7 +155,8 @@ theorem continuity_exact (b : Basis K) (hv : b.Valid) (hper : b.periodic = -1) (
       exact le_trans (by linarith) (l3 i hi1 hi2)
   unfold Basis.continuity
   have h1 : ¬ (b.periodic ≥ 0) := by rw [hper]; decide
-  have h2 : ¬ (x < b.start ∨ b.stop < x) := not_or.2 ⟨not_lt.2 hx.1, not_lt.2 hx.2⟩
+  have h2 : ¬ (x < b.start - tol ∨ b.stop + tol < x) :=
+    not_or.2 ⟨not_lt.2 (by linarith [hx.1]), not_lt.2 (by linarith [hx.2])⟩
   simp only [if_neg h1, if_neg h2, hhi, hlo]
   split_ifs <;> rfl
 
